@@ -35,12 +35,13 @@ def _tree_hash(repo, root):
 
 def expand(root, repo):
     work = os.path.join(root, '.work', 'expand')
-    os.makedirs(os.path.join(work, 'crate', 'src'), exist_ok=True)
     key = _tree_hash(repo, root)
+    # one scratch crate per tree state: concurrent runs against different trees (seeded worktrees) must not see each other's manifest
+    os.makedirs(os.path.join(work, 'crate-' + key, 'src'), exist_ok=True)
     out = os.path.join(work, 'expanded-%s.rs' % key)
     if os.path.exists(out) and os.path.getsize(out) > 1000:
         return open(out).read()
-    crate = os.path.join(work, 'crate')
+    crate = os.path.join(work, 'crate-' + key)
     open(os.path.join(crate, 'Cargo.toml'), 'w').write(CARGO % dict(repo=os.path.abspath(repo)))
     shutil.copy(os.path.join(root, 'kani', 'src', 'corpus.rs'), os.path.join(crate, 'src', 'lib.rs'))
     lock = os.path.join(repo, 'Cargo.lock')
@@ -52,10 +53,17 @@ def expand(root, repo):
                         '-Zunpretty=expanded'], cwd=crate, capture_output=True, text=True, env=env, timeout=900)
     if p.returncode != 0 or len(p.stdout) < 1000:
         raise RuntimeError('macro expansion failed: ' + p.stderr[-1500:])
-    for f in os.listdir(work):
-        if f.startswith('expanded-'):
+    shutil.rmtree(crate, ignore_errors=True)
+    # keep the cache small: the 12 most recent expansions
+    old = sorted((f for f in os.listdir(work) if f.startswith('expanded-')), key=lambda f: os.path.getmtime(os.path.join(work, f)))
+    for f in old[:-12]:
+        try:
             os.remove(os.path.join(work, f))
-    open(out, 'w').write(p.stdout)
+        except OSError:
+            pass
+    tmp = out + '.tmp%d' % os.getpid()
+    open(tmp, 'w').write(p.stdout)
+    os.replace(tmp, out)
     return p.stdout
 
 
